@@ -29,6 +29,7 @@ import cfggen
 
 PID = "C07"
 LOCK = threading.Lock()
+TLC_SEM = threading.Semaphore(4)      # pair-validating TLC runs at a time (one worker, 2 GB each)
 KS_BASE = [1, 2, 7]
 K_LONG, K_HUGE = 1000, 12000
 
@@ -250,17 +251,15 @@ def validate_pairs(files, wd, name, timeout=1500):
         g.close()
     mod = "C07PairTrace"
     errs, notes, problems = [], [], []
-    sem = threading.Semaphore(4)
-
     def one(ci, path, off):
-        with sem:
+        with TLC_SEM:
             try:
                 twd = os.path.join(wd, "tlc_%s_%d" % (name, ci))       # concurrent validations: one TLC directory each
                 os.makedirs(twd, exist_ok=True)
                 with open(os.path.join(twd, mod + ".cfg"), "w") as f:
                     f.write(PAIR_CFG)
                 outp = os.path.join(twd, mod + ".out")
-                r = run_tlc(twd, mod, workers=1, timeout=timeout, heap="4g", deque=True,
+                r = run_tlc(twd, mod, workers=1, timeout=timeout, heap="2g", deque=True,
                             env_extra={"TRACE": os.path.abspath(path)}, stdout_path=outp)
                 txt = open(outp, errors="replace").read()
                 if r["rc"] != 0 or "Model checking completed. No error" not in txt:
@@ -528,7 +527,8 @@ def loop_model(wd, quick):
     out = {}
     runs = [("design", "none", LOOP_INVS, mt, me), ("mutant_no_rewind", "no_rewind", LOOP_INVS, 28, 2),
             ("mutant_block_when_counting", "block_when_counting", LOOP_INVS, 28, 2),
-            ("probe_tick_budget", "none", ["TickBudget"], 28, 2)]
+            ("probe_tick_budget", "none", ["TickBudget"], 28, 2),
+            ("probe_tick_budget_with_proposed_fix", "rem_fix", LOOP_INVS + ["TickBudget"], 28, 2)]
     for name, bug, invs, t, e in runs:
         d = os.path.join(wd, "loop_" + name)
         os.makedirs(d, exist_ok=True)
@@ -626,7 +626,7 @@ def run(tier, seed):
                         # the one-behaviour monitor of P_C07 is implied by IdleTickIsStutter and would end the
                         # exploration at the first recorded finding; the invariant itself is the L2 judgement here
                         "invariants": ["C07Probe", "C07ProbeX"],
-                        "extra_defs": PROBE_DEFS + f["opt"].get("extra_defs", ""), "drift_limit": 300}
+                        "extra_defs": PROBE_DEFS + f["opt"].get("extra_defs", ""), "drift_limit": 300, "heap": "3g"}
                 for k in ("caps", "constraint"):
                     if k in f["opt"]:
                         inst[k] = f["opt"][k]
@@ -774,6 +774,15 @@ def run(tier, seed):
             raise loopres["err"]
         res.extra["loop_model"] = loopres["out"]
         res.states += res.extra["loop_model"]["design"]["states"] or 0
+        # observation for the TickBudget probe of Loop.tla on the real handle_time_ticks (not a verdict)
+        tbk, tbo = os.path.join(wd, "tick_budget.kbd"), os.path.join(wd, "tick_budget.json")
+        open(tbk, "w").write("(defsrc a)\n(deflayer l0 a)\n")
+        if sh([HARNESS, "tick-budget", tbk, tbo], check=False, timeout=120).returncode == 0:
+            res.extra["tick_budget_observation"] = json.load(open(tbo))
+            if res.extra["tick_budget_observation"]["double_count_observed"]:
+                res.notes.append("observation (not part of the verdict): handle_time_ticks counts an interval shorter than 1 ms twice "
+                                 "(ms_elapsed = 0 keeps last_tick and also carries the time in time_remainder): two calls 0.6 ms after "
+                                 "a tick return 0 and 1; predicted by spec/Loop.tla (TickBudget is not an invariant)")
         ljobs = loop_runs(rng, 3 if quick else 20)
         jf, of = os.path.join(wd, "loop.job.json"), os.path.join(wd, "loop.pairs.ndjson")
         json.dump({"jobs": ljobs}, open(jf, "w"))
